@@ -26,7 +26,7 @@ theorem rewriteBelow_ext (P : LocalPass) (u : Nat) (t : String) (a : Attrs) (cs 
 /-- C14-1a: foreign-namespace elements (with arbitrary subtrees) and foreign-namespace attributes,
     inserted anywhere, do not change the result of `remove_nonsvg_content` -/
 theorem removeNonSvg_blind (ng : Bool) (u : Nat) (t : String) (a a' : Attrs) (cs cs' : List Node)
-    (hroot : goodNs ng t = true)
+    (hroot : goodElemNs t = true)
     (h : Ext (nonSvgPass ng) (.elem u t a cs) (.elem u t a' cs')) :
     removeNonSvg ng (.elem u t a' cs') = removeNonSvg ng (.elem u t a cs) := by
   unfold removeNonSvg
